@@ -9,7 +9,8 @@ C19 — Client connection state is consistent, bounded and recovers.
    exactly one of Connected/Disconnected; Connected ⇒ a connection is listed; connections in the
    list plus an in-flight dial never exceed max(1, MaxConns); Close is terminal (`closed_terminal`)
    and idempotent (`close_idempotent`); after Close no connection is ever registered again, a dial
-   that completes later is discarded (`no_conn_after_close`); recovery: with no connection left the
+   that completes later is discarded (`no_conn_after_close`) and no new dial is ever started
+   (`no_dial_after_close`, repaired tree: F20); recovery: with no connection left the
    next call starts a dial (`ondemand_redials`), the auto-connect client re-arms itself after a
    failed dial and after its last connection closed (`auto_rearms`).
 Residual (runtime, not in the model): real sleeps are only lower-bounded by the scenario check.
@@ -27,14 +28,25 @@ theorem pow_mod_64k (a : Nat) (h : 16 ≤ a) : 2 ^ a % 65536 = 0 := by
   rw [Nat.pow_add]
   exact Nat.mul_mod_right _ _
 
+theorem shl1_mod (a : Nat) (h : 16 ≤ a) : shl1 a % 65536 = 0 := by
+  unfold shl1
+  split
+  · exact pow_mod_64k a h
+  · rfl
+
+theorem shl1_lt (a : Nat) : shl1 a < 2 ^ 64 := by
+  unfold shl1
+  split
+  · exact Nat.pow_lt_pow_right (by decide) (by assumption)
+  · decide
+
 theorem multi_large (a : Nat) (h : 16 ≤ a) : multi a = 65534 := by
   unfold multi
   have hd : (65536 : Nat) ∣ 2 ^ 64 := ⟨2 ^ 48, by decide⟩
   rw [Nat.mod_mod_of_dvd _ hd]
-  have h1 : 2 ^ a % 2 ^ 64 % 65536 = 0 := by
-    rw [Nat.mod_mod_of_dvd _ hd]; exact pow_mod_64k a h
-  have h2 : (2 ^ a % 2 ^ 64 + 2 ^ 64 - 2) % 65536 = ((2 ^ a % 2 ^ 64) % 65536 + (2 ^ 64 - 2) % 65536) % 65536 := by
-    have : 2 ^ a % 2 ^ 64 + 2 ^ 64 - 2 = 2 ^ a % 2 ^ 64 + (2 ^ 64 - 2) := by
+  have h1 := shl1_mod a h
+  have h2 : (shl1 a + 2 ^ 64 - 2) % 65536 = (shl1 a % 65536 + (2 ^ 64 - 2) % 65536) % 65536 := by
+    have : shl1 a + 2 ^ 64 - 2 = shl1 a + (2 ^ 64 - 2) := by
       have : 2 ≤ 2 ^ 64 := by decide
       omega
     rw [this, Nat.add_mod]
@@ -166,6 +178,12 @@ theorem no_conn_after_close (s : State) (hi : Inv s) (hc : s.closed = true) (as 
       | some s' => exact ih s' (inv_step s s' a hi hs) (closed_terminal s s' a hc hs)
   exact (inv_run s hi as).closed_empty hcl
 
+/-- a closed client never starts a dial: after Close the only dial that can still be running is the
+one that was already in the network when Close was called (its result is discarded) -/
+theorem no_dial_after_close (s s' : State) (a : Action) (hc : s.closed = true)
+    (h : step s a = some s') : s'.dial = .inNet → s.dial = .inNet := by
+  cases a <;> simp only [step, startDial] at h <;> (repeat' split at h) <;> (try cases h) <;> simp_all
+
 /-- on demand: with no connection and no dial in flight the next call starts a dial -/
 theorem ondemand_redials (s : State) (hc : s.closed = false) (h0 : s.conns = 0) (hd : s.dial = .none) :
     ∃ s', step s .connSlow = some s' ∧ s'.dial = .inNet := by
@@ -177,7 +195,7 @@ theorem auto_rearms (s : State) (ha : s.auto = true) (hc : s.closed = false) :
     (s.dial = .failed → ∃ s', step s .connectTail = some s' ∧ s'.dial = .inNet) := by
   constructor
   · intro h1 hd
-    simp [step, h1, ha, startDial, hd]
+    simp [step, h1, ha, hc, startDial, hd]
   · intro hd
     simp [step, hd, ha, hc]
 
